@@ -4,7 +4,7 @@
    What is proved is invariance of the TOKEN STREAM (kinds, spans erased).  That the parser maps equal streams
    (equal up to the optional final Newline) to equal ASTs is exercised by checks/c10.py, not proved. *)
 From Coq Require Import List Arith Lia Bool NArith.
-From Verif Require Import Lex.Layout Lex.LayoutEdits Lex.LayoutMachine C10.Model.
+From Verif Require Import Lex.Layout Lex.LayoutEdits Lex.LayoutMachine C10.Model C10.Proofs.
 Import ListNotations.
 
 (* hypotheses are satisfiable; the machine really emits Indent / Dedent / Newline on a nested program *)
@@ -73,6 +73,11 @@ Theorem C10_final_newline : forall s, lex_approx (lex (s ++ [Nl])) (lex s).
 Proof. intros. rewrite !machine_refines_scan. cbn [lex_approx]. apply edit_final_newline. Qed.
 Print Assumptions C10_final_newline.
 
+(* ... and the final newline never changes acceptance: the error list is identical *)
+Theorem C10_final_newline_same_errors : forall s, errs (scan (s ++ [Nl])) = errs (scan s).
+Proof. exact final_newline_same_errors. Qed.
+Print Assumptions C10_final_newline_same_errors.
+
 (* E6  a newline followed by arbitrary blanks between two symbols at bracket depth > 0 *)
 Theorem C10_newline_inside_brackets : forall p ws q d,
   blanks ws -> mode_after p = IL (S d) ->
@@ -97,29 +102,14 @@ Print Assumptions C10_reindent.
 Theorem C10_reindent_instances :
   column_map every_column (fun w => 2 * w) /\ column_map every_column (fun w => 4 * w) /\
   column_map every_column (fun w => w) /\ column_map even_column (fun w => w / 2).
-Proof.
-  repeat split; try (intros; lia); try exact I.
-  - intros a b [k ->] [j ->] H. rewrite !(Nat.mul_comm 2), !Nat.div_mul by lia. lia.
-  - exists 0. reflexivity.
-Qed.
+Proof. exact reindent_instances. Qed.
 Print Assumptions C10_reindent_instances.
-
-Lemma skeleton_map_err : forall f evs, skeleton (map (map_err f) evs) = skeleton evs.
-Proof.
-  induction evs as [|e r IH]; [reflexivity|]. cbn [map skeleton flat_map]. fold (skeleton r).
-  fold (skeleton (map (map_err f) r)). rewrite IH. destruct e as [t|x]; [reflexivity | destruct x; reflexivity].
-Qed.
 
 (* block structure (the Indent / Dedent / Newline skeleton) and the whole token list depend only on the ORDER of
    the indentation columns, not on their values *)
 Theorem C10_blocks_by_relative_indent : forall W f s s',
   column_map W f -> reindented W f s s' -> skeleton (scan s') = skeleton (scan s) /\ toks (scan s') = toks (scan s).
-Proof.
-  intros W f s s' (Hm & Hw & Hz) H. rewrite (edit_reindent W f Hm Hw Hz s s' H). split; [apply skeleton_map_err|].
-  induction (scan s) as [|e r IH]; [reflexivity|].
-  cbn [map toks flat_map]. fold (toks r). fold (toks (map (map_err f) r)). rewrite IH.
-  destruct e as [t|x]; [reflexivity | destruct x; reflexivity].
-Qed.
+Proof. exact blocks_by_relative_indent. Qed.
 Print Assumptions C10_blocks_by_relative_indent.
 
 (* S  shape of every result: the stream ends in Dedent* Eof and contains no other Eof *)
